@@ -77,13 +77,29 @@ def make_stream(cfg, integration: str):
     return cls.for_rdflib(opts)
 
 
+class FramesChangedAfterYield(Exception):
+    """A frame object handed out by a frame generator was modified while later frames were produced."""
+
+
 def frames_to_bytes(frames, delimited: bool) -> bytes:
+    """Write every frame as it is produced - and keep the frame objects: a consumer may just as well collect them
+    first (list(frames)) and write afterwards, so what was yielded must still say the same when the generator is done."""
     from pyjelly.serialize.ioutils import write_delimited, write_single
 
     out = io.BytesIO()
     w = write_delimited if delimited else write_single
+    kept = []
     for f in frames:
         w(f, out)
+        kept.append(f)
+    later = io.BytesIO()
+    for f in kept:
+        w(f, later)
+    if later.getvalue() != out.getvalue():
+        k = next((i for i, (a, b) in enumerate(zip(out.getvalue(), later.getvalue())) if a != b), 0)
+        msg = (f"frames collected and written after the generator finished differ from the same frames written as they "
+               f"were produced (first difference at byte {k}): a frame object was reused")
+        raise FramesChangedAfterYield(msg)
     return out.getvalue()
 
 
